@@ -11,9 +11,15 @@ Norm(e) == [drive |-> e.drive, vol |-> IF e.drive = 0 /\ e.vol = "" THEN "A" ELS
 Judge(ev) == /\ ev.rc = 0
              /\ Norm(ev.obs) = Norm(REffective(ev.opts))
              /\ Norm(ev.listed) = Norm(REffective(ev.opts))
+\* the same run seen from inside (hook events): which drive select_drive was asked for and which volume the body reads went through.
+\* The test discs: drive 0 = Opus with volume A at sector 18 and B at sector 558; drive 1 = Acorn DFS (one volume at 0).
+VolOrigin(e) == IF e.drive = 1 THEN 0 ELSE IF e.vol = "B" THEN 558 ELSE 18
+SessionOK(ev) == LET eff == Norm(REffective(ev.opts)) IN
+                 /\ Len(ev.selects) > 0 /\ \A k \in 1..Len(ev.selects) : ev.selects[k] = eff.drive
+                 /\ Len(ev.origins) > 0 /\ \A k \in 1..Len(ev.origins) : ev.origins[k] = VolOrigin(eff)
 TInit == opts = <<>> /\ i = 1 /\ drive = 0 /\ vol = "" /\ dir = 36 /\ ui = "default" /\ verbose = FALSE /\ showcfg = FALSE /\ l = 1 /\ bad = {}
 TNext == /\ l <= Len(TraceLog) /\ l' = l + 1
-         /\ bad' = IF Judge(Ev) THEN bad ELSE bad \cup {l}
+         /\ bad' = IF (IF Ev.e = "session" THEN SessionOK(Ev) ELSE Judge(Ev)) THEN bad ELSE bad \cup {l}
          /\ UNCHANGED vars
 TSpec == TInit /\ [][TNext]_tvars
 Final == (l = Len(TraceLog) + 1) => PrintT(<<"VERDICT", ToJson([bad |-> bad, n |-> Len(TraceLog)])>>)
